@@ -169,7 +169,14 @@ class VLoop(base_events.BaseEventLoop):
                 break
             d = self.next_deadline()
             if d is None or d > end:
-                raise RuntimeError("run_until_complete: nothing scheduled and future pending")
+                detail = ""
+                if self.exc_log:
+                    import traceback
+                    e = self.exc_log[0].get("exception")
+                    detail = " -- first loop exception: %r %s" % (
+                        e or self.exc_log[0].get("message"),
+                        "".join(traceback.format_exception(type(e), e, e.__traceback__))[-1500:] if e else "")
+                raise RuntimeError("run_until_complete: nothing scheduled and future pending" + detail)
             self.fire_next()
         return fut.result()
 
